@@ -42,9 +42,9 @@ def line_numbers(i):
     return c01.numeric_fields(i)
 
 
-def check_line(entry, res, tier, which):
+def check_line(entry, res, tier, which, att=False):
     name, tags, tmpl, k = entry
-    title = 'asm %r' % tmpl
+    title = '%s %r' % ('asm_att' if att else 'asm', tmpl)
     eng = Engine(width=72, timeout_ms=20000, max_paths=3000, max_seconds=120 if tier == 'quick' else 600)
     wits = []
     seen = set()
@@ -52,7 +52,7 @@ def check_line(entry, res, tier, which):
     def fn(eng):
         syms = [SInt.var('n%d' % j, 0, (1 << 32) - 1) for j in range(k)]
         try:
-            cands = AD.asm(tmpl, syms)
+            cands = AD.asm(tmpl, syms, att=att)
         except PathAbort:
             raise
         except ValueError as ex:
@@ -161,7 +161,7 @@ def check_line(entry, res, tier, which):
             if key not in seen and prop == which:
                 seen.add(key)
                 res['candidates'].append({'key': key, 'desc': '%s: %s with %s' % (title, r[2], r[3]),
-                                          'data': {'tmpl': tmpl, 'k': k, 'vals': [r[3].get('n%d' % j, 0) for j in range(k)], 'what': r[1].split(':')[0], 'ci': r[4],
+                                          'data': {'tmpl': tmpl, 'k': k, 'vals': [r[3].get('n%d' % j, 0) for j in range(k)], 'what': r[1].split(':')[0], 'ci': r[4], 'att': att,
                                                    'fws': (r[5] if len(r) > 5 else {}).get('fws', [])}})
         elif r[0] in ('REJECT', 'SKIP'):
             pass
@@ -172,7 +172,7 @@ def check_line(entry, res, tier, which):
     if uniq:
         dis = OD.disassemble([bytes(w[2]) for w in uniq])
         from vf.oracles import gas
-        refs = gas.reference([tmpl.format(*w[0]) for w in uniq]) if which == 'C02' else [True] * len(uniq)
+        refs = gas.reference([tmpl.format(*w[0]) for w in uniq], att=att) if which == 'C02' else [True] * len(uniq)
         for slot, ((vals, ci, bs), od) in enumerate(zip(uniq, dis)):
             res['witnesses'] = res.get('witnesses', 0) + 1
             line = tmpl.format(*vals)
@@ -180,15 +180,17 @@ def check_line(entry, res, tier, which):
                 res['wit_invalid_for_gas'] = res.get('wit_invalid_for_gas', 0) + 1
                 continue
             if which == 'C02':
-                bad = template_check(refs[slot], bytes(bs), od, addr=slot * OD.SLOT, refaddr=slot * gas.SLOT, line_mn=name)
+                bad = template_check(refs[slot], bytes(bs), od, addr=slot * OD.SLOT, refaddr=slot * gas.SLOT, line_mn=None if att else name)
                 if bad:
                     key = '%s:%s:%s' % (bad[0], name, ','.join(tags))
                     if key not in seen:
                         seen.add(key)
                         res['candidates'].append({'key': key, 'desc': '%s -> %s: %s' % (line, bytes(bs).hex(), bad[1]),
-                                                  'data': {'tmpl': tmpl, 'k': k, 'vals': list(vals), 'what': 'template', 'ci': ci}})
+                                                  'data': {'tmpl': tmpl, 'k': k, 'vals': list(vals), 'what': 'template', 'ci': ci, 'att': att}})
                 else:
                     res['wit_agree'] = res.get('wit_agree', 0) + 1
+            elif att:
+                pass
             else:
                 bad = text_roundtrip(bytes(bs))
                 if bad:
@@ -203,6 +205,55 @@ def check_line(entry, res, tier, which):
         res['nontrivial'] += 1
         if len(res['samples']) < 2:
             res['samples'].append({'line': tmpl, 'paths': len(rs), 'verdict': 'every candidate decodes to its full length and carries exactly the numbers of the line on %d path(s)' % ok})
+
+
+ATT_MN = [('mov', 'lwb'), ('add', 'lwb'), ('sub', 'l'), ('cmp', 'lb'), ('and', 'lw'), ('or', 'l'), ('xor', 'lb'), ('test', 'lb'), ('adc', 'l'), ('sbb', 'l')]
+
+
+def att_lines(tier):
+    """AT&T line classes (name, tags, template, k): two-operand integer forms x operand shapes, plus one-operand / special forms"""
+    regs = {'l': ['%eax', '%ebx'], 'w': ['%cx'], 'b': ['%cl', '%ah']}
+    mems = ['{N}(%ebx)', '(%ebp)', '{N}(%ebx,%esi,4)', '{N}(,%esi,4)', '{N}', '-{N}(%ebx)', '(%ebx,%ebx,2)', '{N}(%esp)'] if tier == 'thorough' else \
+        ['{N}(%ebx)', '{N}(%ebx,%esi,4)', '{N}(,%esi,4)', '-{N}(%ebx)', '{N}', '{N}(%ebx,%ebx,2)']
+    out = []
+    mns = ATT_MN if tier == 'thorough' else ATT_MN[:2] + ATT_MN[3:4] + ATT_MN[7:8]
+    for mn, sufs in mns:
+        for sf in sufs:
+            r = regs[sf][0]
+            combos = [('imm,reg', '${N}, %s' % r), ('reg,reg', '%s, %s' % (regs[sf][-1], r))]
+            for m in mems:
+                tag = m.replace('{N}', 'N')
+                combos += [('imm,m:' + tag, '${N}, %s' % m), ('reg,m:' + tag, '%s, %s' % (r, m)), ('m:' + tag + ',reg', '%s, %s' % (m, r))]
+            for tag, ops in combos:
+                if mn == 'test' and tag.startswith('m:'):
+                    continue
+                tmpl, k = AD.fill('%s%s %s' % (mn, sf, ops))
+                out.append((mn + sf, (tag,), tmpl, k))
+    for name, ops in (('leal', '{N}(%ebx,%esi,2), %eax'), ('leal', '{N}(,%esi,8), %ecx'), ('pushl', '${N}'), ('pushl', '{N}(%ebx)'), ('pushw', '${N}'), ('popl', '{N}(%ebp)'),
+                      ('incl', '{N}(%ebx)'), ('negl', '%eax'), ('shll', '${N}, %eax'), ('sarl', '${N}, {N}(%ebx)'), ('imull', '${N}, %ebx, %eax'), ('imull', '{N}(%ebx), %eax'),
+                      ('movzbl', '{N}(%ebx), %eax'), ('movsbl', '%cl, %eax'), ('movzwl', '{N}(%ebx,%esi,2), %eax'), ('xchgl', '%eax, {N}(%ebx)'), ('btl', '${N}, %eax'),
+                      ('jmp', '*{N}(%ebx)'), ('call', '*%eax'), ('flds', '{N}(%ebx)'), ('fadds', '{N}(%ebx)'), ('fstpl', '{N}(%esp)'), ('fsub', '%st(1), %st'),
+                      ('ret', '${N}'), ('int', '${N}'), ('in', '${N}, %al'), ('out', '%al, ${N}'), ('enter', '${N}, ${N}'), ('movl', '%eax, %es:{N}(%edi)'),
+                      ('movq', '{N}(%eax), %mm1'), ('movd', '%eax, %xmm2'), ('paddb', '{N}(%ebx), %mm1'), ('movaps', '%xmm1, {N}(%esp)'), ('shldl', '${N}, %ebx, %eax'),
+                      ('cmpxchgl', '%ecx, {N}(%ebx)'), ('setne', '{N}(%ebx)'), ('cmovbl', '{N}(%ebx), %eax'), ('mull', '{N}(%ebx)'), ('divb', '%cl'), ('notl', '{N}(%ebx)')):
+        tmpl, k = AD.fill('%s %s' % (name, ops))
+        out.append((name, (ops.replace('{N}', 'N'),), tmpl, k))
+    return out
+
+
+def att_valid(entries, probe_values=(5, 0x1234)):
+    """keep the AT&T lines both assemblers accept (validity predicate of the property's quantifier)"""
+    from vf.oracles import gas
+    keep = []
+    for e in entries:
+        try:
+            r = E.A.x86mnemo.asm_att(e[2].format(*[probe_values[i % 2] for i in range(e[3])]))
+        except Exception:
+            continue
+        if r:
+            keep.append(e)
+    ok = gas.valid_lines([e[2].format(*[probe_values[i % 2] for i in range(e[3])]) for e in keep], att=True)
+    return [e for i, e in enumerate(keep) if i in ok]
 
 
 STRING_MN = set(st + sf for st in ('movs', 'cmps', 'stos', 'lods', 'scas', 'ins', 'outs') for sf in 'bwd')
@@ -305,6 +356,10 @@ def jobs(tier, seed, which='C02'):
         names = [n for n in CORE_MN if n in names and n not in drop] + rest[:15]
     chunks = [names[i:i + 1] for i in range(0, len(names), 1)]
     out = [('asm', tier, ch, which) for ch in chunks]
+    if which == 'C02':
+        # AT&T lines through asm_att (same clauses; reference = GNU as in AT&T mode)
+        al = att_lines(tier)
+        out += [('asmatt', tier, al[i:i + 12], which) for i in range(0, len(al), 12)]
     if which == 'C03':
         # converse direction: decode (symbolic bytes) -> real Intel rendering in render mode -> real parser -> the original bytes
         # must be among the candidates for all byte values of the path (vf/checks/c09.py, Intel half)
@@ -322,6 +377,12 @@ def run_job(job):
         c09.run_rt(job, res, which='C03')
         for c in res['candidates']:
             c['key'] = 'conv:' + c['key']
+        return res
+    if job[0] == 'asmatt':
+        _, tier, entries, which = job
+        for e in att_valid(entries):
+            res['programs'] += 1
+            check_line(e, res, tier, which, att=True)
         return res
     _, tier, names, which = job
     shapes = AD.operand_shapes(tier)
@@ -349,7 +410,8 @@ import miasmx.arch.ia32_arch as A, miasmx.arch.ia32_reg as R
 E.A = A; E.R = R
 D = %(data)r
 line = D['tmpl'].format(*D['vals']); what = D['what']; bad = False
-cands = x86mnemo.asm(line)
+att = D.get('att', False)
+cands = x86mnemo.asm_att(line) if att else x86mnemo.asm(line)
 print(line, '->', [bytes(c).hex() for c in cands])
 for ci, b in enumerate(cands):
     b = bytes(b)
@@ -381,9 +443,9 @@ for ci, b in enumerate(cands):
                 if not present and ci == D['ci']: bad = True; print('number %%#x of the line is not in candidate %%s' %% (n, b.hex()))
     elif what == 'template':
         from vf.oracles import gas
-        ref = gas.reference([line])[0]
+        ref = gas.reference([line], att=att)[0]
         if ref is None: print('GNU as rejects the line (or warns): outside the quantifier'); continue
-        r = c02.template_check(ref, b, OD.disassemble([b])[0], line_mn=line.split()[0])
+        r = c02.template_check(ref, b, OD.disassemble([b])[0], line_mn=None if att else line.split()[0])
         if r and ci == D['ci']: bad = True; print(b.hex(), r)
     elif what == 'text':
         r = c02.text_roundtrip(b)
@@ -414,7 +476,7 @@ def main(argv=None, which='C02'):
     cov['rule'] = 'a program = one accepted line class (mnemonic x operand-shape tags) with every number symbolic; non-trivial = at least one path on which all candidates were proved'
     cov['functions_encoded'] = ['ia32_arch:x86_mn._asm/parse_mnemo/normalize_args/asm_candidates/asm_all_candidate, check_imm_size/ad_to_generic/forge_opc', 'core.parse_ad (grammar actions, dict_add/sub/mul)',
                                 'ply.lex / ply.yacc (real lexer and LALR engine on the real text)', 'ia32_arch:x86_mn._dis (decoding the candidates)']
-    cov['bounds'] = ('%s mnemonics x 48 operand shapes (0-2 operands + four 3-operand forms), Intel syntax; every number token symbolic in [0, 2^32) (negative numbers through "-N" shapes); '
+    cov['bounds'] = ('%s mnemonics x 48 operand shapes (0-2 operands + four 3-operand forms), Intel syntax, plus AT&T line classes (10 two-operand mnemonics x size suffixes x operand shapes + 40 special forms) through asm_att in C02; every number token symbolic in [0, 2^32) (negative numbers through "-N" shapes); '
                      'template clause at <= 60 witnesses per line incl. every number pushed to its extremes' % ('~90 (core list + seeded sample)' if a.tier == 'quick' else 'all'))
     if which == 'C03':
         cov['functions_encoded'].append('converse: x86_mn._dis (symbolic bytes) -> x86_mn.__str__ in render mode -> x86_mn._asm (vf/x86/roundtrip.py)')
